@@ -336,6 +336,8 @@ def cmd_digests(args):
     for cls in sorted(spec.CLASSES):
         for i in range(args.first, args.first + args.n):
             sc = runner.make_scenario(spec, cls, seed, i)
+            sc = runner.calibrate(spec, cls, sc, known,
+                                  spec.CLASSES[cls].get("timeout", 20))
             r = runner.fork_eval(spec, cls, sc, known,
                                  spec.CLASSES[cls].get("timeout", 20))
             out.append("%s %s %d %s %s %s" % (
@@ -344,6 +346,8 @@ def cmd_digests(args):
         # the deep bounds of the thorough tier
         for i in range(args.first, args.first + max(1, args.n // 3)):
             sc = runner.make_scenario(spec, cls, seed, i, 2)
+            sc = runner.calibrate(spec, cls, sc, known,
+                                  spec.CLASSES[cls].get("timeout", 20) * 3)
             r = runner.fork_eval(spec, cls, sc, known,
                                  spec.CLASSES[cls].get("timeout", 20) * 3)
             out.append("%s %s+deep %d %s %s %s" % (
